@@ -289,12 +289,22 @@ func CheckC01(run *Run) {
 							}
 							rm := vg.Random(in, p)
 							pathBoundNonEmpty(rm, md, rng)
+							if strings.HasPrefix(r.ID, "rtbody") {
+								// these services have sibling routes one segment apart (/shared/{id} and /shared/{id}/restore): a "." or
+								// ".." path value is cleaned away by ServeMux and the redirected request lands on the sibling, which the
+								// model's dot-segment clause (301 -> not routed) does not follow; dot segments are the subject of the
+								// route catalogue, where the model is exact
+								clearPathDots(rm, md)
+							}
 							cases = append(cases, &callCase{req: r, g: g, svc: svc, md: md, ct: ct, reqMsg: rm, resp: vg.Random(out, p), family: "call"})
 						}
 					}
 					// default request (path-bound forced non-empty), default response
 					rm := dynamicpb.NewMessage(in)
 					pathBoundNonEmpty(rm, md, rng)
+					if strings.HasPrefix(r.ID, "rtbody") {
+						clearPathDots(rm, md)
+					}
 					cases = append(cases, &callCase{req: r, g: g, svc: svc, md: md, ct: k3(len(cases)), reqMsg: rm, resp: dynamicpb.NewMessage(out), family: "call-default"})
 				}
 			}
